@@ -176,12 +176,12 @@ SliceOps(s) ==
     IN
     {[op |-> "jsread", i |-> i] : i \in {0, n, 5}} \cup {[op |-> "jslen"]}
     \cup {WithJs([op |-> "jswrite", i |-> i, v |-> v, js |-> <<>>]) :
-              i \in {0, n + 1} \cup (IF canGrow THEN {n} ELSE {}) \cup (IF n > 1 THEN {n - 1} ELSE {}), v \in WOf(s.k)}
+              i \in {j \in {0, n - 1, n, n + 1} : j >= 0 /\ (j # n \/ canGrow)}, v \in WOf(s.k)}
     \cup {[op |-> "jsdelete", i |-> i] : i \in {j \in {0, n - 1, n} : j >= 0}}
     \cup (IF canGrow THEN {WithJs([op |-> "jspush", v |-> v, js |-> <<>>]) : v \in WOf(s.k)} ELSE {})
     \cup {[op |-> "jspop"]}
     \cup {[op |-> "jssetlen", n |-> m] : m \in {j \in {0, n - 1, n} \cup (IF canGrow THEN {n + 1} ELSE {}) : j >= 0}}
-    \cup {[op |-> "gowrite", i |-> i, g |-> GOf(s.k, 3)] : i \in {j \in {0} : j < Len(s.go)}}
+    \cup {[op |-> "gowrite", i |-> i, g |-> GOf(s.k, 3)] : i \in {j \in {0} : j < Len(st.go) /\ j < Len(lt.go)}}
     \cup (IF s.mode = "field" THEN {[op |-> "goappend", g |-> GOf(s.k, 2)]} ELSE {})
 MapKeys == {K_a, K_b}
 MapOps(s) ==
@@ -206,14 +206,22 @@ StructOps(s) ==
     \cup (IF s.ptr THEN {[op |-> "gowrite", f |-> "A", g |-> S!GInt("int", I(11))], [op |-> "gowrite", f |-> "c", g |-> S!GInt("int", I(12))],
                           [op |-> "gowrite", f |-> "B", g |-> S!GStr(U_smile)], [op |-> "gowrite", f |-> "Any", g |-> S!GX([x |-> "num", n |-> I(4)])]}
           ELSE {})
-OpsOf(s) == CASE Mode = "slice" -> SliceOps(s) [] Mode = "map" -> MapOps(s) [] Mode = "mapint" -> MapIntOps(s) [] Mode = "struct" -> StructOps(s)
+ArrayOps(s) ==
+    {[op |-> "jsread", i |-> i] : i \in {0, 1, 2}} \cup {[op |-> "jslen"]}
+    \cup {WithJs([op |-> "jswrite", i |-> i, v |-> v, js |-> <<>>]) : i \in {0, 1, 2}, v \in WOf(s.k)}
+    \cup {[op |-> "jsdelete", i |-> i] : i \in {0, 2}}
+    \cup {[op |-> "jssetlen", n |-> m] : m \in {1, 3}}
+    \cup {WithJs([op |-> "jspush", v |-> IntV(5), js |-> <<>>])}
+    \cup (IF s.ptr THEN {[op |-> "gowrite", i |-> 1, g |-> GOf(s.k, 3)]} ELSE {})      \* a by-value array is a copy: Go-side writes are not shared
+OpsOf(s) == CASE Mode = "array" -> ArrayOps(s) [] Mode = "slice" -> SliceOps(s) [] Mode = "map" -> MapOps(s) [] Mode = "mapint" -> MapIntOps(s) [] Mode = "struct" -> StructOps(s)
 
-StepS(s, op) == CASE Mode = "slice" -> S!SliceStep(s, op) [] Mode = "map" -> S!MapStep(s, op) [] Mode = "mapint" -> S!MapIntStep(s, op) [] Mode = "struct" -> S!StructStep(s, op)
-StepL(s, op) == CASE Mode = "slice" -> L!SliceStep(s, op) [] Mode = "map" -> L!MapStep(s, op) [] Mode = "mapint" -> L!MapIntStep(s, op) [] Mode = "struct" -> L!StructStep(s, op)
-ObsOf(s) == CASE Mode = "slice" -> S!SliceObs(s) [] Mode \in {"map", "mapint"} -> S!MapObs(s) [] Mode = "struct" -> S!StructObs(s)
+StepS(s, op) == CASE Mode = "array" -> S!ArrayStep(s, op) [] Mode = "slice" -> S!SliceStep(s, op) [] Mode = "map" -> S!MapStep(s, op) [] Mode = "mapint" -> S!MapIntStep(s, op) [] Mode = "struct" -> S!StructStep(s, op)
+StepL(s, op) == CASE Mode = "array" -> L!ArrayStep(s, op) [] Mode = "slice" -> L!SliceStep(s, op) [] Mode = "map" -> L!MapStep(s, op) [] Mode = "mapint" -> L!MapIntStep(s, op) [] Mode = "struct" -> L!StructStep(s, op)
+ObsOf(s) == CASE Mode = "array" -> S!ArrayObs(s) [] Mode = "slice" -> S!SliceObs(s) [] Mode \in {"map", "mapint"} -> S!MapObs(s) [] Mode = "struct" -> S!StructObs(s)
 
 Inits ==
     CASE Mode = "slice" -> {[k |-> k, mode |-> m, go |-> <<GOf(k, 1), GOf(k, 2)>>, js |-> <<GOf(k, 1), GOf(k, 2)>>, done |-> FALSE, cap |-> 2] : k \in ElemKinds, m \in {"field", "value"}}
+      [] Mode = "array" -> {[k |-> k, ptr |-> p, go |-> <<GOf(k, 1), GOf(k, 2)>>] : k \in {"int8", "string", "iface"}, p \in BOOLEAN}
       [] Mode = "map" -> {[k |-> k, keys |-> <<K_a>>, vals |-> <<GOf(k, 1)>>] : k \in ElemKinds}
       [] Mode = "mapint" -> {[k |-> "string", keys |-> <<<<49>>>>, vals |-> <<S!GStr(K_a)>>]}
       [] Mode = "struct" -> {[ptr |-> p, go |-> BackStruct, ex |-> [keys |-> <<>>, vals |-> <<>>]] : p \in BOOLEAN}
